@@ -375,9 +375,34 @@ class Generator:
 
     # ------------------------------------------------------------------
     def emit_fn(self, spec):
-        if spec.opts.get("free") and not getattr(spec, "_is_free_copy", False):
-            return self.emit_fn_with_free_twin(spec)
-        return self.emit_fn_inner(spec)
+        """A lost anchor inside ONE function must not make every property undecided: the function is
+        then emitted with its contract only (external_body) and flagged; the checker reports it as
+        undecided for the properties that list it."""
+        import copy
+        saved = (len(self.out), len(self.fns), len(self.pending_free), dict(self.rewrites))
+        try:
+            if spec.opts.get("free") and not getattr(spec, "_is_free_copy", False):
+                return self.emit_fn_with_free_twin(copy.deepcopy(spec))
+            return self.emit_fn_inner(copy.deepcopy(spec))
+        except ExtractError as e:
+            if str(e).startswith("lost anchor: container") or "fn `" in str(e) and "not found" in str(e):
+                raise
+            del self.out[saved[0]:]
+            del self.fns[saved[1]:]
+            del self.pending_free[saved[2]:]
+            self.rewrites = saved[3]
+            fb = copy.deepcopy(spec)
+            fb.opts.pop("free", None)
+            at = fb.opts.get("attrs")
+            fb.opts["attrs"] = (at + "," if at else "") + "verifier::external_body"
+            fb.entry, fb.loops, fb.before, fb.after, fb.tail = [], {}, [], [], []
+            fb.replace, fb.calls, fb.unsafe_stub = [], [], {}
+            fb._is_free_copy = True
+            n0 = len(self.fns)
+            self.emit_fn_inner(fb)
+            self.fns[n0]["assumed"] = True
+            self.fns[n0]["extract_error"] = str(e)
+            self.count("degraded-to-contract-only:" + spec.name)
 
     def emit_fn_with_free_twin(self, spec):
         """R16: a trait default body is verified as a free generic function over an arbitrary
